@@ -1,9 +1,5 @@
 // harness: c08_pruning::c08_encode_value_floats_mixed_lane_witness (feature c08)
 // replay: cd /verif && ./check --replay /verif/evidence/replays/C08/c08_encode_value_floats_mixed_lane_witness.rs
-/// Test generated for harness `c08_pruning::c08_encode_value_floats_mixed_lane_witness` 
-///
-/// Check for `assertion`: ""GE/GT probe keeps the zone holding a matching value""
-
 #[test]
 fn kani_concrete_playback_c08_encode_value_floats_mixed_lane_witness_7222659713469393555() {
     let concrete_vals: Vec<Vec<u8>> = vec![
@@ -14,10 +10,6 @@ fn kani_concrete_playback_c08_encode_value_floats_mixed_lane_witness_72226597134
     ];
     kani::concrete_playback_run(concrete_vals, c08_encode_value_floats_mixed_lane_witness);
 }
-
-/// Test generated for harness `c08_pruning::c08_encode_value_floats_mixed_lane_witness` 
-///
-/// Check for `assertion`: ""LE/LT probe keeps the zone holding a matching value""
 
 #[test]
 fn kani_concrete_playback_c08_encode_value_floats_mixed_lane_witness_14899422352994891969() {
